@@ -212,6 +212,10 @@ def works_after_other_calls(w, model, m, n, base, op):
 
 
 def build(cfg, values=None):
+    if cfg.get('shell_history'):
+        # complete shells: the stored reduced stiffness handed to the static analyses follows the CURRENT definition (harness shared with C16)
+        from . import c16
+        return c16.build(dict(cfg, variant='history', via='calc_k0'), values)
     if cfg.get('shell'):
         # complete shells: the laminate matrix handed to the kernels and the geometric stiffness do not depend on how many times
         # the linear matrices were evaluated (harness shared with C16)
@@ -364,6 +368,10 @@ def configs(tier, seed):
         for cone in (True, False):
             out.append({'shell': True, 'model': model, 'mn': (2, 2, 1), 's': 1, 'cone': cone, 'm': 2, 'n': 1, 'variant': 'shell-repeated-evaluation',
                         'group': 'shell-repeated-evaluation:%s' % model, 'first': '-', 'redef': 'none', 'last': '_calc_linear_matrices', 'timeout_ms': 180000})
+    for tag, red in (('other-radius-and-length', ({'r2': 'r2_before', 'L': 'L_before'}, {'r2': 'r2', 'L': 'L'})), ('cylinder-to-cone', ({'alphadeg': 0.}, {'alphadeg': 'alphadeg'})),
+                     ('other-thickness', ({'plyt': 'plyt_before'}, {'plyt': 'plyt', 'plyts': 'EMPTY'}))):
+        out.append({'shell_history': True, 'model': 'clpt_donnell_bc1', 'mn': (2, 2, 1), 's': 1, 'cone': True, 'redefine': red, 'm': 2, 'n': 1, 'variant': 'shell-calc_k0-after-redefinition',
+                    'first': 'calc_k0', 'redef': tag, 'last': 'calc_k0', 'group': 'shell-redefinition-%s:calc_k0' % tag, 'timeout_ms': 180000})
     for pd in ((True, True, True), (True, False, True), (False, True, True)):
         out.append({'shell_full_c': True, 'pd': pd, 'mn': (1, 1, 1), 'm': 1, 'n': 1, 'variant': 'shell-amplitude-vector', 'first': '-', 'redef': 'none', 'last': 'calc_full_c',
                     'group': 'shell-amplitude-vector:pdC=%d,pdT=%d' % pd[:2]})
@@ -389,7 +397,7 @@ def main():
     run.bounds = {'history_length': '<= 2 calls + 1 redefinition', 'alphabet': sorted({c['last'] for c in cf}), 'redefinitions': sorted(REDEF), 'models': sorted({str(c.get('model', 'stiffened bay (BladeStiff1D)')) for c in cf}),
                   'configurations': len(cf)}
     run.assume('series orders m=2, n=1', 'eigen-solvers stubbed: the matrices handed to the solver are the observable', 'thread-count independence: only what is arithmetic (chunk partitions, C11)')
-    run.encoded('compmech/conecyl/conecyl.py', 'ConeCyl._calc_linear_matrices (repeated evaluation), calc_full_c (caller vector unchanged, repeated request)')
+    run.encoded('compmech/conecyl/conecyl.py', 'ConeCyl._calc_linear_matrices (repeated evaluation), calc_k0 (stored matrices after a redefinition), calc_full_c (caller vector unchanged, repeated request)')
     run.encoded('compmech/stiffpanelbay/stiffpanelbay.py', 'StiffPanelBay.calc_k0, calc_kG0, calc_kM (after re-definition of a stiffener)')
     run.encoded('compmech/stiffener/bladestiff1d.py', 'BladeStiff1D._rebuild, calc_k0, calc_kG0, calc_kM')
     run.outside = ['OpenMP races', 'ConeCyl histories beyond repeated evaluation of the linear matrices', 'plotting', 'histories longer than the bound']
